@@ -1,11 +1,14 @@
 """C03 - the identifier of a directory object is a pure function of its (relpath, digest) set.
 
-Three correspondence streams, each judged by an independent oracle as well:
+Four correspondence streams, each judged by an independent oracle as well:
 
   tree   random entry lists inserted (with overwrites) into a real Tree in random permutations:
          dict content, as_bytes(), as_bytes(with_meta=True), digest().oid, get_obj(prefix).oid for
          every prefix (+ absent ones), from_list(json.loads(as_bytes)) - against the Gallina
          Tree model, the Gallina json printer/parser and the Gallina MD5, byte for byte.
+  hist   add / get_obj / filter / iteritems interleaved on ONE Tree object (the queries are served from a
+         cached pygtrie that add() must invalidate): every answer against Model/ListingHist.v (no cache: a
+         query is a function of the current dict) and against the sub-directory computed from the current dict.
   build  real directories staged with build() under checksum_jobs x large_file_threshold x
          state-cache temperature (none / cold / warm / foreign algorithm / poisoned); observed:
          the walk order, the state answers, the delivery order of the pool, the merged dict of
@@ -34,6 +37,10 @@ RULE = (
     "clashes, hash names md5 / md5-dos2unix / sha256 / etag / empty / None, random Meta, overwriting "
     "re-insertions, 3 random insertion orders each, every prefix of every key plus absent prefixes; a "
     "malformed sub-stream adds lone surrogates, '/' inside a part, empty parts and the empty key. "
+    "history stream: 2-5 keys (a path is a file or a directory), 5-14 operations on ONE Tree object mixing add of a new key, "
+    "re-add of an existing key with a new digest, get_obj / filter on prefixes of present keys (and absent ones), "
+    "iteritems; non-trivial when a query follows a replacement that follows a query (the window in which a cached "
+    "trie could be stale). "
     "build stream: real directories (0-9 files, sizes 0-48, nested, odd names) x checksum_jobs "
     "{None,1,2,4} x large_file_threshold {2**20,10,0} x state {none,cold,warm,foreign,poisoned} with "
     "randomised per-file hashing delays so that the pool delivers out of order. A tree case is "
@@ -54,7 +61,7 @@ ASSUMPTIONS = [
 ]
 
 IMPORTS = ("From Coq Require Import NArith List.\n"
-           "From DvcData Require Import Base.MD5 Base.Json Model.Listing Model.HashSched.")
+           "From DvcData Require Import Base.MD5 Base.Json Model.Listing Model.HashSched Model.ListingHist.")
 
 PARTS = ["a", "b", "c", "d", "\u00e9", "a b", 'a"b', "a\\b", "\x01x", "\x7f", "\u65e5\u672c", "\U0001F600", "A",
          "a-b", "x.dir", "\u00fa", "\ud7ff", "\ue000", "\uffff", "\U00010000", "\U0010ffff", "\n", "\t", " ",
@@ -577,6 +584,218 @@ def surrogate_observation(ctx):
 
 
 # ----------------------------------------------------------------------------------------------
+# stream 1b: histories on ONE Tree object (add interleaved with the queries served from the cached trie)
+
+
+HIST_MODEL = "fun ops : list hop => enc_hist (run_hist ops [])"
+
+
+def _op_term(op):
+    if op["op"] == "add":
+        return f"(HAdd {_entry_term(op)})"
+    if op["op"] == "get_obj":
+        return f"(HGetObj {_key_term(op['prefix'])})"
+    if op["op"] == "filter":
+        return f"(HFilter {_key_term(op['prefix'])})"
+    return "HItems"
+
+
+def _in_dict_order(tree, entries):
+    """the trie enumerates in its own order; list the (key, meta, hi) triples in the order of the dict"""
+    pos = {k: i for i, (k, _, _) in enumerate(tree)}
+    return sorted(entries, key=lambda e: pos.get(e[0], len(pos)))
+
+
+def _pairs_of(entries):
+    return {(k, emitted((hi.name, hi.value)) if hi is not None else None) for k, _, hi in entries}
+
+
+def run_history(ops):
+    """execute the operations on one real Tree; returns (answers, tree, problems).  Every answer is also
+    judged against the sub-directory / listing computed directly from the current dict content."""
+    from dvc_data.hashfile.hash_info import HashInfo
+    from dvc_data.hashfile.meta import Meta
+    from dvc_data.hashfile.tree import Tree
+
+    t = Tree()
+    odb = _DummyOdb()
+    cur = {}
+    answers = []
+    problems = []
+    for i, op in enumerate(ops):
+        if op["op"] == "add":
+            meta = None if op.get("meta") is None else Meta(**op["meta"])
+            hi = None if op.get("hash") is None else HashInfo(op["hash"][0], op["hash"][1])
+            t.add(tuple(op["key"]), meta, hi)
+            cur[tuple(op["key"])] = op
+            continue
+        p = tuple(op.get("prefix", ()))
+        under = {k: e for k, e in cur.items() if k[:len(p)] == p}
+        want_pairs = {(k, emitted(e.get("hash"))) for k, e in under.items()}
+        if op["op"] == "get_obj":
+            o = t.get_obj(odb, p)
+            got = None if o is None else o.oid
+            answers.append(vL([vN(0), vopt(got, vB)]))
+            e = cur.get(p)
+            if e is not None and e.get("hash") and e["hash"][1]:
+                want = e["hash"][1]
+            elif not under and p != ():
+                want = None
+            else:
+                want = ref_oid([("/".join(k[len(p):]), emitted(x.get("hash"))) for k, x in under.items()])
+            if got != want:
+                problems.append(("C03:history-subtree",
+                                 f"after operation {i} get_obj({p!r}).oid = {got}, but the sub-directory built from "
+                                 f"the tree's current entries has {want}"))
+        elif op["op"] == "filter":
+            ents = list(t.filter(p))
+            answers.append(vL([vN(1), _py_tree_val(_in_dict_order(t, ents))]))
+            if _pairs_of(ents) != want_pairs:
+                problems.append(("C03:history-filter",
+                                 f"after operation {i} filter({p!r}) lists {sorted(_pairs_of(ents), key=repr)}, the "
+                                 f"tree's current entries below it are {sorted(want_pairs, key=repr)}"))
+        else:
+            ents = [(k, m, h) for k, (m, h) in t.iteritems()]
+            answers.append(vL([vN(1), _py_tree_val(_in_dict_order(t, ents))]))
+            if _pairs_of(ents) != want_pairs:
+                problems.append(("C03:history-items",
+                                 f"after operation {i} iteritems() yields {sorted(_pairs_of(ents), key=repr)}, the "
+                                 f"tree holds {sorted(want_pairs, key=repr)}"))
+    t.digest()
+    pairs = [("/".join(k), emitted(e.get("hash"))) for k, e in cur.items()]
+    if t.oid != ref_oid(pairs):
+        problems.append(("C03:history-oid", f"oid {t.oid} is not the identifier of the final entries"))
+    return answers, t, problems
+
+
+def gen_history(rng):
+    pool = rng.sample(["a", "b", "c", "d", "e f", "\u00e9", 'q"', "x.dir", "\U0001F600"], 4)
+    keys = []
+    while len(keys) < rng.choice([2, 3, 3, 4, 5]):
+        if keys and rng.random() < 0.6:
+            base = rng.choice(keys)
+            k = base[:rng.randint(1, len(base))][:2] + [rng.choice(pool)]
+        else:
+            k = [rng.choice(pool) for _ in range(rng.choice([1, 2, 2, 3]))]
+        # a path is a file or a directory, not both (as in a real directory)
+        if k in keys or any(k[:len(o)] == o or o[:len(k)] == k for o in keys):
+            continue
+        keys.append(k)
+
+    def hv():
+        r = rng.random()
+        if r < 0.85:
+            return ["md5", "".join(rng.choice(HEX) for _ in range(32))]
+        if r < 0.93:
+            return ["md5-dos2unix", "".join(rng.choice(HEX) for _ in range(32))]
+        return None
+
+    def add(k):
+        return {"op": "add", "key": k, "hash": hv(), "meta": gen_meta(rng)}
+
+    def query():
+        k = rng.choice(present) if present else [pool[0]]
+        p = k[:rng.randint(0, len(k))] if rng.random() < 0.9 else [rng.choice(pool), "zz"]
+        r = rng.random()
+        return {"op": "get_obj", "prefix": p} if r < 0.5 else {"op": "filter", "prefix": p} if r < 0.85 else {"op": "items"}
+
+    present = []
+    ops = []
+    first = keys[:max(1, len(keys) - rng.choice([0, 0, 1]))]
+    for k in first:
+        ops.append(add(k))
+        present.append(k)
+    for _ in range(rng.choice([3, 4, 5, 6, 8])):
+        r = rng.random()
+        if r < 0.45:
+            ops.append(query())
+        elif r < 0.85:
+            ops.append(add(rng.choice(present)))  # a file was edited: same key, new digest
+        else:
+            rest = [k for k in keys if k not in present]
+            k = rest[0] if rest else rng.choice(present)
+            ops.append(add(k))
+            if k not in present:
+                present.append(k)
+    ops.append(query())
+    return {"kind": "history", "ops": ops}
+
+
+def _stale_window(ops):
+    """is some query preceded by a replacement of an existing key that is itself preceded by a query?"""
+    seen, queried, armed = set(), False, False
+    for op in ops:
+        if op["op"] == "add":
+            k = tuple(op["key"])
+            if k in seen and queried:
+                armed = True
+            seen.add(k)
+        else:
+            if armed:
+                return True
+            queried = True
+    return False
+
+
+def shrink_history(case, sig):
+    cur = case
+    changed = True
+    while changed and len(cur["ops"]) > 1:
+        changed = False
+        for i in range(len(cur["ops"])):
+            cand = {"kind": "history", "ops": cur["ops"][:i] + cur["ops"][i + 1:]}
+            try:
+                if any(s == sig for s, _ in run_history(cand["ops"])[2]):
+                    cur = cand
+                    changed = True
+                    break
+            except Exception:  # noqa: BLE001, S112
+                continue
+    return cur
+
+
+def fixed_histories():
+    h = ["1" * 32, "2" * 32, "3" * 32, "4" * 32]
+
+    def a(k, v):
+        return {"op": "add", "key": k, "hash": ["md5", v], "meta": None}
+
+    return [
+        # build, query the directory (trie materialised), replace a file of it, query again
+        {"kind": "history", "ops": [a(["d", "x"], h[0]), a(["d", "y"], h[1]), a(["t"], h[2]),
+                                    {"op": "get_obj", "prefix": ["d"]}, a(["d", "x"], h[3]),
+                                    {"op": "get_obj", "prefix": ["d"]}, {"op": "filter", "prefix": ["d"]},
+                                    {"op": "items"}, {"op": "get_obj", "prefix": []}]},
+        {"kind": "history", "ops": [a(["s", "e", "c"], h[0]), a(["s", "a"], h[1]), {"op": "filter", "prefix": ["s"]},
+                                    a(["s", "e", "c"], h[2]), a(["s", "a"], h[3]),
+                                    {"op": "get_obj", "prefix": ["s", "e"]}, {"op": "get_obj", "prefix": ["s"]},
+                                    {"op": "filter", "prefix": ["s", "e"]}]},
+        {"kind": "history", "ops": [a(["x"], h[0]), {"op": "items"}, a(["x"], h[1]), {"op": "items"},
+                                    {"op": "get_obj", "prefix": []}, {"op": "get_obj", "prefix": ["x"]}]},
+    ]
+
+
+def run_history_stream(ctx, cases):
+    items = []
+    for case in cases:
+        ops = case["ops"]
+        try:
+            answers, t, problems = run_history(ops)
+        except Exception as exc:  # noqa: BLE001
+            ctx.oracle_fail(f"C03:history-exception:{type(exc).__name__}", f"Tree operation raised {exc!r}", case)
+            continue
+        for sig, what in problems:
+            ctx.oracle_fail(sig, what, shrink_history(case, sig))
+        stale = _stale_window(ops)
+        ctx.case(case, nontrivial=stale)
+        ctx.count("history:" + ("query-after-replace-after-query" if stale else "other"))
+        ctx.count(f"history:ops={min(len(ops), 12)}")
+        exp = vL([vL(answers), _py_tree_val(t), vB(t.oid)])
+        items.append((case, clist([_op_term(op) for op in ops]), exp))
+    return items
+
+
+# ----------------------------------------------------------------------------------------------
 # stream 2: build
 
 
@@ -927,6 +1146,10 @@ def run(ctx):
     t_items = run_tree_stream(ctx, tree_cases)
     surrogate_observation(ctx)
 
+    hist_cases = [c for c in corpus if c.get("kind") == "history"] + fixed_histories()
+    hist_cases += [gen_history(ctx.rng) for _ in range(ctx.n(60, 500))]
+    h_items = run_history_stream(ctx, hist_cases)
+
     corpus_dirs = [c["files"] for c in corpus if c.get("kind") == "build"]
     fixed_dirs = [
         {},
@@ -941,9 +1164,10 @@ def run(ctx):
     md5_items, json_items = run_base_stream(ctx, ctx.n(24, 150), ctx.n(40, 400))
 
     ctx.obligation("oracle:listing", not any(v.kind == "oracle" for v in ctx.violations),
-                   f"{len(t_items)} tree cases and {len(b_items)} real builds judged by the independent canonical encoder "
+                   f"{len(t_items)} tree cases, {len(h_items)} operation histories on one Tree object and {len(b_items)} real builds judged by the independent canonical encoder "
                    "(permutation, metadata, round trip, sub-directory, configuration independence, pairwise injectivity)")
     ctx.correspond("tree", IMPORTS, TREE_INPUT, TREE_MODEL, t_items, shard=16)
+    ctx.correspond("history", IMPORTS, "list hop", HIST_MODEL, h_items, shard=20)
     ctx.correspond("build", IMPORTS, "hconf * (list (list (list N)) * list (key * list hfile))", BUILD_MODEL,
                    b_items, shard=12)
     ctx.correspond("md5", IMPORTS, "list N", "fun b => VB (md5_hex b)", md5_items, shard=40)
@@ -955,6 +1179,9 @@ def replay_case(ctx, case):
     kind = case.get("kind")
     if kind == "tree":
         problems = tree_oracle(case)
+        return {"problems": problems, "violates": bool(problems)}
+    if kind == "history":
+        problems = run_history(case["ops"])[2]
         return {"problems": problems, "violates": bool(problems)}
     if kind == "build":
         files = case["files"]
